@@ -7,6 +7,7 @@
 //! `VIOLATION property=<id> replay=<path>` is printed), 2 = harness/usage error.
 
 mod core;
+mod corrupt;
 mod dictops;
 mod io;
 mod json;
@@ -15,6 +16,7 @@ mod obs;
 mod plan;
 mod rng;
 mod runner;
+mod scen_build;
 mod scen_dict;
 mod scen_image;
 mod scen_worker;
@@ -32,6 +34,7 @@ fn scenario(id: &str) -> Option<Box<dyn Scenario>> {
         "C06" => Some(Box::new(scen_dict::MappingScenario)),
         "C08" => Some(Box::new(scen_dict::UserLexScenario)),
         "C09" => Some(Box::new(scen_image::ImageScenario)),
+        "C10" => Some(Box::new(scen_build::BuildScenario)),
         "C13" => Some(Box::new(scen_worker::ReorderScenario)),
         _ => None,
     }
@@ -80,6 +83,7 @@ fn main() {
     let mut replay = None;
     let mut dump = None;
     let mut evidence = true;
+    let mut survey = false;
     let mut i = 0;
     while i < args.len() {
         let a = args[i].as_str();
@@ -108,6 +112,10 @@ fn main() {
             "--replay" => replay = Some(val()),
             "--dump-plan" => dump = val().parse::<u64>().ok(),
             "--no-evidence" => evidence = false,
+            "--survey" => {
+                survey = true;
+                evidence = false
+            }
             "--quiet" => {}
             _ => {
                 eprintln!("unknown argument {a}");
@@ -133,6 +141,7 @@ fn main() {
         runs_override: runs,
         out: Mutex::new(out),
         write_evidence: evidence && replay.is_none() && runs.is_none(),
+        survey,
     };
     let status = if let Some(path) = replay {
         runner::replay(scen.as_ref(), &path, &opts)
